@@ -16,7 +16,7 @@ from collections import Counter, defaultdict
 import common
 from common import BUILD, COQ, VERIF, Infra, SplitMix, Lock, repo_hash, verif_hash, run
 
-NSCHED = 48
+NSCHED = 56
 TARGET_SCHED = os.path.join(BUILD, "target_sched")
 FAMILY_JSON = os.path.join(BUILD, "sched_family.json")
 HS = os.path.join(VERIF, "harness_sched")
@@ -274,6 +274,13 @@ def oracle(case, ob, sched):
     if ob.get("accs") != ob.get("refaccs") or ob.get("final") != ob.get("ref"):
         fails.append(("C07", "result differs from the sequential run: accs %s vs %s; final %s vs %s"
                       % (ob.get("accs"), ob.get("refaccs"), ob.get("final"), ob.get("ref"))))
+    # C15: what the systems' resource views left behind is what the sequential run leaves
+
+    def _res(x):
+        return x.rsplit(" res=", 1)[1] if isinstance(x, str) and " res=" in x else None
+    if _res(ob.get("final")) != _res(ob.get("ref")):
+        fails.append(("C15", "resources after run_schedule differ from those after the sequential run (a write through a system's "
+                             "resource view was lost or misplaced): %s vs %s" % (_res(ob.get("final")), _res(ob.get("ref")))))
     # C08: tasks under the two sides of one join must not share a written address
     touched = defaultdict(lambda: defaultdict(bool))
     for t, addr, w in ob["access"]:
